@@ -178,6 +178,9 @@ func classifyPanic(id string, rec any, stack []byte) *sim.Violation {
 	if he, ok := rec.(simfs.HarnessError); ok {
 		panic(HarnessError{he.Msg})
 	}
+	if pp, ok := rec.(*simfs.ProcPanic); ok {
+		return classifyPanic(id, pp.Val, pp.Stack)
+	}
 	// find the first frame after the panic that is not runtime: goProbe => violation, verif => harness
 	lines := strings.Split(string(stack), "\n")
 	top := ""
